@@ -272,8 +272,10 @@ impl<T, U> Framed<T, U> {
         T: AsyncWrite,
         U: Encoder<I>,
     {
+        // write out everything that is still buffered (this also flushes the underlying IO)
+        ready!(self.as_mut().flush::<I>(cx))?;
+
         let mut this = self.as_mut().project();
-        ready!(this.io.as_mut().poll_flush(cx))?;
         ready!(this.io.as_mut().poll_shutdown(cx))?;
         Poll::Ready(Ok(()))
     }
